@@ -50,6 +50,11 @@ class C17(Check):
         js += [dict(kind='speed', n=n) for n in range(2, (3 if q else 4) + 1)]
         js += [dict(kind='speed', n=3, after_abscurv=True)]       # the order in which the two features are computed must not matter
         js.sort(key=lambda j: -j['n'])
+        # scale probes: long tracks (fixed fixes except two symbolic positions; some repeated timestamps)
+        for n in ([130] if q else [127, 128, 129, 130, 257, 400]):
+            js.append(dict(kind='abscurv_long', n=n))
+        for n in ([40] if q else [31, 32, 33, 40, 130]):
+            js.append(dict(kind='speed_long', n=n))
         return js
 
     def patches(self, job):
@@ -70,7 +75,118 @@ class C17(Check):
             secs, mss = list(range(n)), [0] * n
         return xs, ys, zs, secs, mss
 
+    def _long_inputs(self, eng, inp, n):
+        xs = [3.0 * i + 0.5 * ((i * 7) % 5) for i in range(n)]
+        ys = [10.0 * math.sin(i / 3.0) + 0.25 * ((i * 3) % 4) for i in range(n)]
+        zs = [float(i % 6) for i in range(n)]
+        for i in (1, n - 2):
+            if inp is None:
+                xs[i], ys[i] = eng.real('x%d' % i, xs[i] - 2, xs[i] + 2), eng.real('y%d' % i, ys[i] - 2, ys[i] + 2)
+            else:
+                xs[i], ys[i] = float(inp['x%d' % i]), float(inp['y%d' % i])
+        # instants i/8 s, except three groups of repeated timestamps (both ends and an interior run of three)
+        k = list(range(n))
+        k[1] = k[0]
+        k[n - 1] = k[n - 2]
+        k[11] = k[12] = k[10]
+        return xs, ys, zs, [v // 8 for v in k], [125 * (v % 8) for v in k]
+
+    def _long_path(self, ctx, job):
+        eng = ctx.eng
+        n = job['n']
+        cin = sys.modules[CIN]
+        xs, ys, zs, secs, mss = self._long_inputs(eng, None, n)
+        tr = build(n, xs, ys, zs, secs, mss, [float(i) for i in range(n)])
+        tol = z3.Q(1, 10 ** 6)
+
+        def leg(i, j):
+            if not (core.is_sym(xs[i]) or core.is_sym(xs[j])):
+                return z3.RealVal(repr(math.hypot(xs[i] - xs[j], ys[i] - ys[j])))
+            r = eng.fresh_real('leg')
+            dx, dy = zreal(xs[i]) - zreal(xs[j]), zreal(ys[i]) - zreal(ys[j])
+            eng.assume(z3.And(r >= 0, r * r == dx * dx + dy * dy), check=False)
+            return r
+        close = lambda a, b: z3.And(a - b <= tol, b - a <= tol)
+        try:
+            if job['kind'] == 'abscurv_long':
+                ac = cin.computeAbsCurv(tr)
+                ctx.reach()
+                ctx.observe(last=ac[-1] if len(ac) else None)
+                if len(ac) != n:
+                    ctx.fail('abs_curv does not have one value per fix')
+                    return
+                if not ctx.prove(zreal(ac[0]) == 0, 'the curvilinear abscissa starts at 0'):
+                    return
+                legs = [leg(i, i - 1) for i in range(1, n)]
+                for i in range(1, n):
+                    if not ctx.prove(close(zreal(ac[i]) - zreal(ac[i - 1]), legs[i - 1]), 'long track: the abscissa grows between consecutive fixes by their planimetric distance (never decreases)', chain=True):
+                        return
+                total = z3.Sum(legs)
+                ctx.prove(z3.And(zreal(ac[-1]) - total <= n * tol, total - zreal(ac[-1]) <= n * tol), 'long track: the abscissa ends at the planimetric length of the track')
+                return
+            sp = tr.estimate_speed()
+            ctx.reach()
+            ctx.observe(first=sp[0] if len(sp) else None)
+            if len(sp) != n:
+                ctx.fail('speed does not have one value per fix')
+                return
+            tk = [secs[i] + mss[i] / 1000.0 for i in range(n)]
+            for i in range(n):
+                a, b = (0, 1) if i == 0 else ((n - 2, n - 1) if i == n - 1 else (i - 1, i + 1))
+                dt = tk[b] - tk[a]
+                v = sp[i]
+                if dt == 0:
+                    if not isnan(v):
+                        ctx.fail('long track: speed is not NaN although the elapsed time between the neighbours is zero')
+                        return
+                    continue
+                if isnan(v) or (isinstance(v, float) and math.isinf(v)):
+                    ctx.fail('long track: speed is NaN or infinite although the elapsed time is not zero')
+                    return
+                if not ctx.prove(close(zreal(v) * z3.RealVal(repr(dt)), leg(b, a)), 'long track: speed equals the planimetric distance between the neighbours divided by the elapsed time'):
+                    return
+        except (core._Abort, core._Stop, core.Unsupported):
+            raise
+        except Exception as e:
+            if isinstance(e, TypeError) and ('SReal' in str(e) or 'SInt' in str(e)):
+                raise
+            ctx.fail('%s raised %s' % (job['kind'], type(e).__name__))
+
+    def _long_concrete(self, job, inp):
+        n = job['n']
+        cin = sys.modules[CIN]
+        xs, ys, zs, secs, mss = self._long_inputs(None, inp, n)
+        tr = build(n, xs, ys, zs, secs, mss, [float(i) for i in range(n)])
+        d2 = lambda i, j: math.hypot(xs[i] - xs[j], ys[i] - ys[j])
+        try:
+            if job['kind'] == 'abscurv_long':
+                ac = cin.computeAbsCurv(tr)
+                out = dict(last=float(ac[-1]))
+                if len(ac) != n or ac[0] != 0:
+                    return dict(violation='abs_curv of a %d-fix track has %d values starting at %r' % (n, len(ac), ac[:1]), outputs=out)
+                for i in range(1, n):
+                    if abs((ac[i] - ac[i - 1]) - d2(i, i - 1)) > 1e-6:
+                        return dict(violation='%d-fix track: abs_curv goes from %r to %r at index %d, the planimetric distance is %r' % (n, ac[i - 1], ac[i], i, d2(i, i - 1)), outputs=out)
+                if abs(ac[-1] - sum(d2(i, i - 1) for i in range(1, n))) > 1e-6:
+                    return dict(violation='%d-fix track: abs_curv ends at %r, the planimetric length is %r' % (n, ac[-1], sum(d2(i, i - 1) for i in range(1, n))), outputs=out)
+                return dict(violation=None, outputs=out)
+            sp = tr.estimate_speed()
+            out = dict(first=float(sp[0]))
+            tk = [secs[i] + mss[i] / 1000.0 for i in range(n)]
+            for i in range(n):
+                a, b = (0, 1) if i == 0 else ((n - 2, n - 1) if i == n - 1 else (i - 1, i + 1))
+                dt = tk[b] - tk[a]
+                if (dt == 0) != isnan(sp[i]):
+                    return dict(violation='%d-fix track: speed[%d] = %r with elapsed time %r' % (n, i, sp[i], dt), outputs=out)
+                if dt != 0 and not abs(sp[i] * dt - d2(a, b)) <= 1e-6:
+                    return dict(violation='%d-fix track: speed[%d] = %r, neighbours are %r apart in %r s' % (n, i, sp[i], d2(a, b), dt), outputs=out)
+            return dict(violation=None, outputs=out)
+        except Exception as e:
+            return dict(violation='%s raised %s: %s' % (job['kind'], type(e).__name__, e))
+
     def path(self, ctx, job):
+        if job['kind'].endswith('_long'):
+            return self._long_path(ctx, job)
         eng = ctx.eng
         n = job['n']
         cin = sys.modules[CIN]
@@ -190,6 +306,8 @@ class C17(Check):
             ctx.fail('%s raised %s' % (job['kind'], type(e).__name__))
 
     def concrete(self, job, inp):
+        if job['kind'].endswith('_long'):
+            return self._long_concrete(job, inp)
         n = job['n']
         cin = sys.modules[CIN]
         stale = bool(job.get('stale'))
